@@ -33,7 +33,8 @@ def run(db, chk):
         chk.ob("hash-what-was-written", "update on self.hash", any(x[0] == "arg" and ".hash" in x[2] for x in fl.roots(u.args[0], stop_named=False)), "", u.where(), key="hash-receiver")
         chk.ob("hash-after-write", "update after inner.write succeeded", all(w.dominates(i.block, u.block) for i in inner) and fl.cut_off([u.block], set().union(*[fl.result_edges(i)["good"] for i in inner])), "", u.where(), key="hash-after-write")
     rets = [rv for bi, si, pl, rv, ln, mc in w.assigns() if pl == [0] and rv[0] == "agg" and rv[3] == "Ok"]
-    chk.ob("returns-written", "hash::Write::write returns the inner count", bool(rets) and all(any(x[0] == "call" and x[1] == "std::io::Write::write" for x in fl.roots(rv[4][0], stop_named=False)) for rv in rets), "", "%s:%d" % (w.file, w.line), key="returns-written")
+    direct = [c for c in inner if c.dest == [0]]   # `self.inner.write(buf)` returned as it is
+    chk.ob("returns-written", "hash::Write::write returns the inner count", bool(rets or direct) and all(any(x[0] == "call" and x[1] == "std::io::Write::write" for x in fl.roots(rv[4][0], stop_named=False)) for rv in rets), "", "%s:%d" % (w.file, w.line), key="returns-written")
     # deflate loop
     wi = db.one(r"^gix_features::zlib::stream::deflate::impls::<impl gix_features::zlib::stream::deflate::Write<W>>::write_inner$")
     wfl = Flow(wi)
